@@ -82,21 +82,21 @@ Definition strip_init (nd : node) : node :=
 Definition case_t := (heap * nat * option nat * answer)%type.
 Definition Case (h : heap) (root : nat) (first : option nat) (a : answer) : case_t := (h, root, first, a).
 
-Definition check_instance (c : case_t) : bool :=
+Definition check_instance_gen (pf : bool) (c : case_t) : bool :=
   let '(h, root, first, a) := c in
   let hA := map strip_init h in
   match first with
   | None =>
-      match instantiate hA [] root with
+      match instantiate_gen hA [] pf root with
       | Some r => list_eqb (list_eqb call_eqb) (a_logsA a) [r_log r]
                   && objs_agree (r_objects r) (a_objsA a)
                   && list_eqb Nat.eqb (a_retA a) [r_root r]
       | None => false
       end
   | Some r0 =>
-      match instantiate hA [] r0 with
+      match instantiate_gen hA [] pf r0 with
       | Some r1 =>
-          match instantiate hA (map o_id (r_objects r1)) root with
+          match instantiate_gen hA (map o_id (r_objects r1)) pf root with
           | Some r2 => list_eqb (list_eqb call_eqb) (a_logsA a) [r_log r1; r_log r2]
                        && objs_agree (r_objects r1 ++ r_objects r2) (a_objsA a)
                        && list_eqb Nat.eqb (a_retA a) [r_root r1; r_root r2]
@@ -105,6 +105,8 @@ Definition check_instance (c : case_t) : bool :=
       | None => false
       end
   end.
+
+Definition check_instance : case_t -> bool := check_instance_gen false.
 
 Definition check_params (c : case_t) : bool :=
   let '(h, root, first, a) := c in
@@ -115,5 +117,11 @@ Definition check_params (c : case_t) : bool :=
   | None => false
   end.
 
+(* the hypothesis of C13_wired_like_graph / C13_post_init_once_after_fields holds on the case *)
+Definition check_hyps (c : case_t) : bool := let '(h, _, _, _) := c in fields_nodupb h.
+
 (* C13 *)
-Definition check_case (c : case_t) : bool := check_instance c && check_params c.
+Definition check_case (c : case_t) : bool := check_hyps c && check_instance c && check_params c.
+
+(* diagnosis: __post_init__ called before the attribute copy (Instance.instantiate_post_first) *)
+Definition check_case_post_first (c : case_t) : bool := check_hyps c && check_instance_gen true c && check_params c.
